@@ -63,23 +63,32 @@ def check_occurrence_tables(ctx):
                 if owner is sq and vc is not None and any(n is x for x in ast.walk(vc.node)):
                     continue
                 sites.append((owner, n))
+            # canonical form of `if count < min: flag = False else: flag = True` is `flag = not count < min` (mxsa/normalise.py)
+            if isinstance(n, ast.Assign) and len(n.targets) == 1 and isinstance(n.targets[0], ast.Attribute) and n.targets[0].attr.endswith('requirements_fulfilled'):
+                cmps = [x for x in ast.walk(n.value) if isinstance(x, ast.Compare) and _count_texts(x) and
+                        any(isinstance(y, ast.Attribute) and y.attr == 'min_occurrences' for y in ast.walk(x))]
+                if cmps:
+                    if owner is sq and vc is not None and any(n is x for x in ast.walk(vc.node)):
+                        continue
+                    sites.append((owner, n))
     for owner, ifn in sites:
         n_sites += 1
-        cnt = _count_texts(ifn.test)[0]
-        bnd = [unparse(x) for x in ast.walk(ifn.test) if isinstance(x, ast.Attribute) and x.attr == 'min_occurrences'][0]
+        probe = ifn.test if isinstance(ifn, ast.If) else ifn.value
+        cnt = _count_texts(probe)[0]
+        bnd = [unparse(x) for x in ast.walk(probe) if isinstance(x, ast.Attribute) and x.attr == 'min_occurrences'][0]
         outcomes = {}
         for rel in ('<', '=', '>'):
             r, eff, _ = _run([ifn], owner.fq, order={(cnt, bnd): rel})
             flags = [abseval.show(v) for t, v in eff if t.endswith('.requirements_fulfilled')]
             outcomes[rel] = flags
-        res.check(outcomes['<'] == ['False'], 'R-ORD', owner.fq, f"`{short(ifn.test)}`: count < minOccurs -> requirement not fulfilled",
+        res.check(outcomes['<'] == ['False'], 'R-ORD', owner.fq, f"`{short(probe)}`: count < minOccurs -> requirement not fulfilled",
                   fail_detail=f"sets {outcomes['<']}", key=f"R-ORD|{owner.qualname}|min|<", line=ifn.lineno)
         for rel in ('=', '>'):
-            res.check('False' not in outcomes[rel], 'R-ORD', owner.fq, f"`{short(ifn.test)}`: count {rel} minOccurs -> not reported as missing",
+            res.check('False' not in outcomes[rel], 'R-ORD', owner.fq, f"`{short(probe)}`: count {rel} minOccurs -> not reported as missing",
                       fail_detail=f"sets {outcomes[rel]}", key=f"R-ORD|{owner.qualname}|min|{rel}", line=ifn.lineno)
         if owner is vc:
             for rel in ('=', '>'):
-                res.check(outcomes[rel] == ['True'], 'R-ORD', owner.fq, f"`{short(ifn.test)}`: count {rel} minOccurs -> requirement fulfilled",
+                res.check(outcomes[rel] == ['True'], 'R-ORD', owner.fq, f"`{short(probe)}`: count {rel} minOccurs -> requirement fulfilled",
                           fail_detail=f"sets {outcomes[rel]}", key=f"R-ORD|{owner.qualname}|min-true|{rel}", line=ifn.lineno)
     res.floor('R-ORD count-vs-min sites', n_sites, 2)
     # ---------------------------------------------------------------- choice: count dispatch 0 / 1
@@ -89,17 +98,28 @@ def check_occurrence_tables(ctx):
     heads = [n for n in disp if not any(n in ast.walk(o) and n is not o and n in getattr(o, 'orelse', []) for o in disp)]
     if not heads:
         raise AnalysisError(f"{ch.fq}: the count dispatch of a required choice leaf vanished (idiom not understood)")
-    head = heads[0]
+    # the dispatch may be one if/elif chain or several consecutive ifs of one statement list: take the run of statements from the first to the last of them
+    block = None
+    for holder in ast.walk(ch.node):
+        for field in ('body', 'orelse'):
+            lst = getattr(holder, field, None)
+            if isinstance(lst, list) and heads[0] in lst:
+                idx = [i for i, st in enumerate(lst) if st in heads]
+                block = lst[idx[0]:idx[-1] + 1]
+    if block is None:
+        raise AnalysisError(f"{ch.fq}: the count dispatch of a required choice leaf is not in a statement list (idiom not understood)")
+    head = block[0]
     cnt = _count_texts(head.test)[0]
-    # the flag variable: the local name assigned True somewhere below the dispatch head
+    # the flag variable: the local name assigned True somewhere in the dispatch
     flag = None
-    for n in ast.walk(head):
-        if isinstance(n, ast.Assign) and isinstance(n.targets[0], ast.Name) and isinstance(n.value, ast.Constant) and n.value.value is True:
-            flag = n.targets[0].id
+    for st_ in block:
+        for n in ast.walk(st_):
+            if isinstance(n, ast.Assign) and isinstance(n.targets[0], ast.Name) and isinstance(n.value, ast.Constant) and n.value.value is True:
+                flag = n.targets[0].id
     if flag is None:
         raise AnalysisError(f"{ch.fq}: the count dispatch sets no flag (idiom not understood)")
     for count, order, want in ((0, {(cnt, '0'): '=', (cnt, '1'): '<'}, None), (1, {(cnt, '0'): '>', (cnt, '1'): '='}, True)):
-        r, eff, env = _run([head], ch.fq, order=order)
+        r, eff, env = _run(block, ch.fq, order=order)
         chosen = env.get(flag)
         got = None if chosen is None else (chosen[1] if chosen[0] == 'const' else chosen)
         res.check(got == want and r == ('fall',), 'R-ORD', ch.fq,
